@@ -341,3 +341,36 @@ func H_C09S(name string, c1, c2, c3, dn1, dn2 int) {
 	}
 	vrt.Reach("end")
 }
+
+// H_C03_Comb: the vote combinators (kind 0 And, 1 Or, 2 Majority, 3 Split) over
+// two stub strategies whose action counts differ: skew 0: n,n ; 1: n+1,n ;
+// 2: n,n+1 ; 3: n-1,n ; 4: n,n-1. The pipeline must terminate without a leftover goroutine.
+func H_C03_Comb(kind, k, n, skew int) {
+	d := [][2]int{{0, 0}, {1, 0}, {0, 1}, {-1, 0}, {0, -1}}[skew]
+	mk := func(j, delta int) strategy.Strategy {
+		m := n + delta
+		if m < 0 {
+			m = 0
+		}
+		extra := 0
+		if delta > 0 {
+			extra = delta
+			m = n
+		}
+		return &stubStrategy{name: "s", acts: symActions(vrt.Name("a", j), m), extra: extra}
+	}
+	a, b := mk(0, d[0]), mk(1, d[1])
+	var s strategy.Strategy
+	switch kind {
+	case 0:
+		s = strategy.NewAndStrategy("and", a, b)
+	case 1:
+		s = strategy.NewOrStrategy("or", a, b)
+	case 2:
+		s = strategy.NewMajorityStrategyWith("maj", []strategy.Strategy{a, b})
+	default:
+		s = strategy.NewSplitStrategy(a, b)
+	}
+	_ = Collect1(s.Compute(Src(snapshotsOf(positive("c", n)), 0)))
+	vrt.Reach("end")
+}
